@@ -15,7 +15,7 @@ import (
 func init() { register("C25", c25) }
 
 func c25(p *an.Prog, r *an.R, tier string) {
-	r.Explanation = "C25 (structural clauses): statistics conservation. Every counter of zoekt.Stats is accumulated by Stats.Add and looked at by Stats.Zero (so a stats-only event carrying only that counter is neither lost when aggregated nor dropped as 'empty'); the gRPC chunk sender attaches an event's statistics to exactly one chunk, tracked by a flag that is tested before and set when they are attached; the sampling sender on every path either forwards an event or adds its statistics to the aggregate, resets the aggregate only right after it was forwarded, and Flush forwards a non-empty aggregate; the streaming handler calls Flush after a successful StreamSearch. Does NOT decide exactly-once/in-order delivery of files nor the message size budget."
+	r.Explanation = "C25 (structural clauses): statistics conservation. Every counter of zoekt.Stats is accumulated by Stats.Add and looked at by Stats.Zero (so a stats-only event carrying only that counter is neither lost when aggregated nor dropped as 'empty'); the gRPC chunk sender attaches an event's statistics to exactly one chunk, tracked by a flag that is tested before and set when they are attached; the sampling sender on every path either forwards an event or adds its statistics to the aggregate, resets the aggregate only right after it was forwarded, and Flush forwards a non-empty aggregate; the streaming handler calls Flush after a successful StreamSearch. (R6) every pass-through zoekt.SenderFunc wrapper forwards its event on every path. Does NOT decide exactly-once/in-order delivery of files nor the message size budget."
 	r.Rule("C25.R1", "every numeric/duration field of zoekt.Stats is `+=`-accumulated in Stats.Add and read in Stats.Zero (exceptions: Duration, FlushReason)")
 	r.Rule("C25.R2", "gRPCChunkSender: the assignment that attaches the event's stats is guarded by a `not yet sent` flag which is set to true on that path; the flag is a bool initialised false per event")
 	r.Rule("C25.R3", "samplingSender.Send: every path reaches next.Send or agg.Stats.Add(event.Stats); the aggregate is reset only after it was forwarded (next.Send(&s.agg) or event.Stats.Add(s.agg.Stats)); Flush forwards s.agg.Stats under !Zero")
